@@ -1105,6 +1105,12 @@ fn multi_scenario_inner(net: &mut Net, rng: &mut Rng, sc: usize, thorough: bool,
 	for c in [c0, c1, c2] { net.sample_balances(c); }
 	let bal_before: u64 = [c0, c1, c2].iter().map(|c| b_balance(net, *c)).sum();
 	let p0 = net.trace.len();
+	// crash variant: B will restart from THIS manager (written before the claims; the manager is persisted lazily) and from
+	// its monitors as they are durable at the crash point (every update reported complete, no update still InProgress)
+	let crash = rng.chance(1, 2);
+	let stale_mgr = net.nodes[B].node.encode();
+	let mut snaps: BTreeMap<(usize, u64), Vec<u8>> = BTreeMap::new();
+	snap_monitors(net, &mut snaps);
 	net.set_mode(B, true);
 	// C claims everything (in a random order; a later claim may land in C's holding cell and go out with a later commitment)
 	let mut order: Vec<usize> = (0..n_htlc).collect();
@@ -1115,7 +1121,33 @@ fn multi_scenario_inner(net: &mut Net, rng: &mut Rng, sc: usize, thorough: bool,
 	// the inbound edge whose monitor updates complete readily; the other one stays in flight (1/12 per roll)
 	let fav = if rng.chance(1, 2) { c0 } else { c2 };
 	let steps = if thorough { 60 + rng.below(40) } else { 40 + rng.below(30) } as usize;
-	for _ in 0..steps {
+	let crash_step = if crash { 10 + rng.below(steps as u64 - 10) as usize } else { usize::MAX };
+	let mut crashed = false;
+	let mut p_crash = usize::MAX; let mut ev0 = 0usize;
+	for step in 0..steps {
+		snap_monitors(net, &mut snaps);
+		if step == crash_step {
+			let (_, cur) = net.snapshot(B);
+			let mut ids = net.nodes[B].chain_monitor.chain_monitor.list_monitors(); ids.sort();
+			let mut mons = vec![];
+			for (k, cid) in ids.iter().enumerate() {
+				let ci = net.chan_idx(cid);
+				match net.pending_updates(B, ci).first() {
+					Some(minp) => match snaps.get(&(ci, minp - 1)) { Some(bytes) => mons.push(bytes.clone()), None => return Err("crash: durable copy of a monitor not snapshotted".into()) },
+					None => mons.push(cur[k].clone()),
+				}
+			}
+			p_crash = net.trace.len(); ev0 = net.events[B].len();
+			net.restart_from(B, &stale_mgr, &mons).map_err(|e| format!("restart failed: {}", e))?;
+			crashed = true;
+			// startup work: replayed claims, regenerated updates (synchronous persister now), forwards / fail-backs
+			for _ in 0..6 {
+				net.process_events(B); net.forward(B);
+				for c in [c0, c1, c2] { for id in net.pending_updates(B, c) { net.complete(B, c, id); } }
+			}
+			net.process_events(B);
+			break;
+		}
 		match rng.below(20) {
 			0..=8 => {
 				let q: Vec<(usize, usize)> = [(B, C), (C, B)].iter().cloned().filter(|l| net.queued(l.0, l.1) > 0).collect();
@@ -1124,7 +1156,7 @@ fn multi_scenario_inner(net: &mut Net, rng: &mut Rng, sc: usize, thorough: bool,
 			9 | 10 => { if !to_claim.is_empty() { let k = to_claim.remove(0); net.claim(fwds[k].pay); net.process_events(C); } },
 			11..=14 => {
 				let mut cands: Vec<(usize, u64)> = vec![];
-				for c in [c0, c1, c2] { for id in net.pending_updates(B, c) { if c != c1 && c != fav && !rng.chance(1, 12) { continue; } cands.push((c, id)); } }
+				for c in [c0, c1, c2] { for id in net.pending_updates(B, c) { if c != c1 && c != fav && (crash || !rng.chance(1, 12)) { continue; } cands.push((c, id)); } }
 				if !cands.is_empty() { let (c, id) = *rng.pick(&cands); net.complete(B, c, id); }
 			},
 			15 => { mark(net, "TICK"); net.process_events(C); net.forward(C); },
@@ -1136,8 +1168,8 @@ fn multi_scenario_inner(net: &mut Net, rng: &mut Rng, sc: usize, thorough: bool,
 		}
 	}
 	// ---- drain ------------------------------------------------------------------------------------
-	for k in to_claim.drain(..) { net.claim(fwds[k].pay); net.process_events(C); }
-	for _ in 0..80 {
+	if !crashed { for k in to_claim.drain(..) { net.claim(fwds[k].pay); net.process_events(C); } }
+	for _ in 0..(if crashed { 0 } else { 80 }) {
 		let mut any = false;
 		for c in [c0, c1, c2] { for id in net.pending_updates(B, c) { net.complete(B, c, id); any = true; } }
 		if let Some((i, j)) = net.any_queued() { net.deliver(i, j); any = true; }
@@ -1151,9 +1183,9 @@ fn multi_scenario_inner(net: &mut Net, rng: &mut Rng, sc: usize, thorough: bool,
 	if tracing { eprintln!("=== multi scenario {} n={} fav=c{}", sc, n_htlc, fav); for o in &net.trace[p0..] { if !matches!(o, Obs::Balance { .. }) { eprintln!("  {}", fmt_obs(o)); } } }
 
 	// ---- trace -> op lines + impl-side oracles -----------------------------------------------------------
-	let tr: Vec<Obs> = net.trace[p0..].to_vec();
-	for o in &tr { if let Obs::ProtoError { node, text } = o { out.oracle.push(format!("multi scenario {}: honest operation produced a protocol error at node {}: {}", sc, node, text)); } }
-	for (n, r) in &net.closed { out.oracle.push(format!("multi scenario {}: channel closed at node {} ({})", sc, n, r)); }
+	let tr: Vec<Obs> = net.trace[p0..p_crash.min(net.trace.len())].to_vec();
+	if !crashed { for o in &tr { if let Obs::ProtoError { node, text } = o { out.oracle.push(format!("multi scenario {}: honest operation produced a protocol error at node {}: {}", sc, node, text)); } } }
+	if !crashed { for (n, r) in &net.closed { out.oracle.push(format!("multi scenario {}: channel closed at node {} ({})", sc, n, r)); } }
 	out.lines.push(("minit".into(), "-".into(), "minit".into(), false));
 	let blocker_of = |k: usize| -> u64 { fwds[k].up_chan as u64 * 1000 + fwds[k].up_id.unwrap() };
 	// C's fulfils in the order they were queued (FIFO link, no disconnects): the i-th delivery is the i-th queued
@@ -1234,6 +1266,23 @@ fn multi_scenario_inner(net: &mut Net, rng: &mut Rng, sc: usize, thorough: bool,
 			_ => {},
 		}
 		i = j;
+	}
+	// ---- crash variant: the LOSS oracle ------------------------------------------------------------------------
+	if crashed {
+		// every forwarded HTLC is claimed (or still claimable) by C and nothing was mined: after restart + replay from the stale
+		// manager and the durable monitors B must not fail ANY of them backwards
+		let mut failed = 0;
+		for e in &net.events[B][ev0.min(net.events[B].len())..] { if let Event::HTLCHandlingFailed { .. } = e {
+			failed += 1;
+			out.oracle.push(format!("multi scenario {}: after a crash and a restart from a ChannelManager written before the claims (monitors as durable at the crash) B FAILED A FORWARDED HTLC BACKWARDS although the next hop fulfilled it and its removal is durable downstream — B loses the amount: {}; HTLCs at the crash: {}; schedule before the crash: {}", sc,
+				format!("{:?}", e).chars().take(260).collect::<String>(),
+				(0..n_htlc).map(|x| format!("htlc{}=c{}/id{}/{}msat fulfil-seen={} pre={}", x, fwds[x].up_chan, fwds[x].up_id.unwrap(), fwds[x].out_amt, seen_fulfil[x] as u8, pre[x])).collect::<Vec<_>>().join(" "),
+				sched.join("; ")));
+		} }
+		out.classes.push(format!("crash:stale-manager:fulfils-seen={}:preimages-in-flight={}:failed-back={}", seen_fulfil.iter().filter(|x| **x).count(), (0..n_htlc).filter(|k| seen_fulfil[*k] && pre[*k] != 'd').count(), failed));
+		out.lines.push(("crashed".into(), "ok".into(), "crashed".into(), true));
+		out.classes.push(format!("scenario:n={}:crash", n_htlc));
+		return Ok(out);
 	}
 	// ---- terminal ------------------------------------------------------------------------------------------
 	let delta_b: i128 = bal_after as i128 - bal_before as i128;
